@@ -1186,7 +1186,7 @@ pub fn quick_size_adjust(pid: &str, profile: &str) -> usize {
         ("C05", "P-1char") => 1,
         ("C02", "P-anchor") | ("C03", "P-anchor") | ("C02", "P-dupref") | ("C03", "P-dupref") | ("C02", "P-named") | ("C03", "P-named") => 1,
         ("C09", "P-1char") => 1,
-        ("C09", "P-anchor") => 1,
+        ("C09", "P-anchor") | ("C09", "P-capback") | ("C09", "P-vset") => 1,
         ("C02", "P-icaseback") | ("C03", "P-icaseback") => 1,
         ("C16", "P-fail") => 0,
         _ => 0,
